@@ -300,3 +300,335 @@ def plan_is_graceful_open(plan):
         if plan['cfg'][side].get('idle_time'):
             return False
     return bool(plan.get('prof', {}).get('liveness', True))
+
+
+# ---------------------------------------------------------------------------
+# timelines
+def state_times(obs, side):
+    ''' {state: (seq, time)} of the first entry into each session state. '''
+    out = {}
+    if obs.har.contact[side] is None:
+        return out
+    for item in obs.sig(side, 'session_state_changed'):
+        out.setdefault(item[4][0], (item[0], item[1]))
+    return out
+
+
+def rx_progress(obs, side):
+    ''' List of (seq, time, cumulative octets read by ``side`` from its socket). '''
+    pipe_name = 'b2a' if side == 'A' else 'a2b'
+    total = 0
+    out = []
+    for evt in obs.wld.hist:
+        if evt[3] == 'tcp-recv' and evt[5] == pipe_name and evt[4] == 0:
+            total += evt[6]
+            out.append((evt[0], evt[1], total))
+    return out
+
+
+def read_stamp(progress, offset):
+    ''' (seq, time) at which the reader had consumed ``offset`` octets. '''
+    for (seq, when, total) in progress:
+        if total >= offset:
+            return (seq, when)
+    return None
+
+
+def injected_stall_us(plan):
+    return sum(flt.get('dur', 0) for flt in plan.get('faults', ()) if flt['kind'] in ('stall', 'slow'))
+
+
+def has_fault(plan, kinds):
+    return any(flt['kind'] in kinds for flt in plan.get('faults', ()))
+
+
+def has_op(plan, kinds):
+    return any(op['op'] in kinds for op in plan.get('ops', ()))
+
+
+# ---------------------------------------------------------------------------
+def check_termination(obs):
+    ''' C09 clauses (DESIGN 5/C09). '''
+    out = []
+    har = obs.har
+    plan = obs.plan
+    fired = set(flt[4] for flt in obs.faults)
+    called = set(call[3] for call in har.calls)
+    hard = bool(fired & {'reset', 'kill', 'blackhole'})
+    user_close = bool(called & {'close', 'stop'})
+    graceful = not hard and not user_close
+    established = {side: 'established' in state_times(obs, side) for side in ('A', 'P')}
+    ending = {side: state_times(obs, side).get('ending') for side in ('A', 'P')}
+    terms = {side: [msg for msg in obs.wire[side] if msg['kind'] == 'SESS_TERM'] for side in ('A', 'P')}
+    any_term = any(ending.values()) or any(terms.values())
+
+    # (c) at most one SESS_TERM per direction, always
+    for side in ('A', 'P'):
+        if len(terms[side]) > 1:
+            out.append(('sess-term', 'more-than-one', '%s wrote %d SESS_TERM messages' % (side, len(terms[side]))))
+
+    if obs.hang:
+        out.append(('close', 'callback-hang', 'a callback never returned (watchdog)'))
+        return out
+
+    if graceful and any_term and established['A'] and established['P']:
+        progress = {side: rx_progress(obs, side) for side in ('A', 'P')}
+        for side in ('A', 'P'):
+            peer = OTHER[side]
+            # (c) exactly one each, REPLY iff decided after reading the peer's
+            if len(terms[side]) == 0:
+                out.append(('sess-term', 'missing-' + ('initiator' if ending[side] and (not ending[peer] or ending[side][0] < ending[peer][0]) else 'responder'),
+                            '%s never wrote a SESS_TERM although the session was terminated' % side))
+            elif ending[side] is not None and terms[peer]:
+                peer_term_read = read_stamp(progress[side], terms[peer][0]['end'])
+                is_reply = bool(terms[side][0]['flags'] & rfc9174.TERM_REPLY)
+                if peer_term_read is not None and peer_term_read[0] < ending[side][0] and not is_reply:
+                    out.append(('sess-term', 'reply-flag-missing', '%s answered a SESS_TERM without the REPLY flag' % side))
+                if (peer_term_read is None or peer_term_read[0] > ending[side][0]) and is_reply:
+                    out.append(('sess-term', 'reply-flag-spurious', '%s initiated termination with the REPLY flag set' % side))
+            # (a) transfers in progress complete
+            started = obs.sig(side, 'send_bundle_started')
+            fin_tx = {fin[4][0]: fin for fin in obs.sig(side, 'send_bundle_finished')}
+            fin_rx = {fin[4][0]: fin for fin in obs.sig(peer, 'recv_bundle_finished')}
+            for item in started:
+                tid = item[4][0]
+                if ending[side] is not None and item[0] > ending[side][0]:
+                    # (b) a transfer started after the node began terminating
+                    out.append(('new-transfer', 'started-after-term', '%s started transfer %s after it began terminating' % (side, tid)))
+                    continue
+                if tid not in fin_rx or fin_rx[tid][4][2] != 'success':
+                    out.append(('in-progress', 'not-delivered-' + stall_cause(obs), 'transfer %s of %s was in progress at termination and never completed at %s' % (tid, side, peer)))
+                elif tid not in fin_tx or fin_tx[tid][4][2] != 'success':
+                    out.append(('in-progress', 'not-acknowledged-' + stall_cause(obs), 'transfer %s of %s was delivered but %s never reported success' % (tid, side, side)))
+            # (d) queued but unstarted are reported not sent, exactly once
+            started_ids = set(item[4][0] for item in started)
+            counts = {}
+            for fin in obs.sig(side, 'send_bundle_finished'):
+                counts[fin[4][0]] = counts.get(fin[4][0], 0) + 1
+            for (_seq, tid, _tag, _body) in har.queued[side]:
+                if counts.get(tid, 0) > 1:
+                    out.append(('finished-once', 'finished-twice', '%s emitted send_bundle_finished for %s %d times' % (side, tid, counts[tid])))
+                if tid in started_ids:
+                    continue
+                if counts.get(tid, 0) == 0:
+                    out.append(('unstarted', 'silently-lost', 'transfer %s queued at %s was neither started nor reported as not sent' % (tid, side)))
+                elif tid in fin_tx and fin_tx[tid][4][2] == 'success':
+                    out.append(('unstarted', 'success-without-start', 'transfer %s of %s reported success without starting' % (tid, side)))
+
+    # (e) bounded liveness of closing: once termination began and faults healed
+    want_close = any_term and 'blackhole' not in fired and established['A'] and established['P']
+    if fired & {'reset', 'kill'}:
+        want_close = True
+    if user_close and not hard:
+        want_close = True
+    if want_close and not obs.wld.capped:
+        for side in ('A', 'P'):
+            if not har.node[side].alive:
+                continue
+            if not har.opened[side]:
+                continue
+            if fired & {'reset', 'kill'} and not any_term and not _saw_disconnect(obs, side):
+                # a survivor that never touched the dead socket cannot know yet
+                continue
+            if len(har.closed[side]) < len(har.opened[side]):
+                out.append(('close', 'half-open-' + stall_cause(obs), '%s still holds an open contact at the end of the run (opened %d, closed %d)' % (
+                    side, len(har.opened[side]), len(har.closed[side]))))
+            elif har.agent[side]._handlers:
+                out.append(('close', 'handler-leak', '%s agent still lists %d handlers' % (side, len(har.agent[side]._handlers))))
+    return out
+
+
+def _saw_disconnect(obs, side):
+    pipe_name = 'b2a' if side == 'A' else 'a2b'
+    for evt in obs.wld.hist:
+        if evt[3] in ('tcp-recv-eof',) and evt[5] == pipe_name:
+            return True
+        if evt[3] == 'tcp-arrive-fin' and evt[5] == pipe_name:
+            return True
+    return any(flt[4] == 'reset' for flt in obs.faults)
+
+
+# ---------------------------------------------------------------------------
+def check_params_and_timers(obs):
+    ''' C14 clauses. '''
+    out = []
+    har = obs.har
+    plan = obs.plan
+    cfg = plan['cfg']
+    tol = 500000 + injected_stall_us(plan)
+    inits = {side: [msg for msg in obs.wire[side] if msg['kind'] == 'SESS_INIT'] for side in ('A', 'P')}
+    both_init = bool(inits['A']) and bool(inits['P'])
+    # negotiated values as reported
+    for call in har.calls:
+        (_seq, _when, side, member, _args, ret) = call
+        if member != 'get_session_parameters' or not isinstance(ret, dict) or not ret:
+            continue
+        peer = OTHER[side]
+        if not inits[peer]:
+            out.append(('params', 'reported-before-init', '%s reported session parameters before the peer SESS_INIT' % side))
+            continue
+        pinit = inits[peer][0]
+        want = dict(
+            keepalive=min(cfg['A']['keepalive_time'], cfg['P']['keepalive_time']),
+            peer_nodeid=pinit['nodeid'].decode('utf8'),
+            peer_segment_mru=min(pinit['segment_mru'], 2**31 - 1),
+            peer_transfer_mru=min(pinit['transfer_mru'], 2**31 - 1),
+        )
+        for (key, val) in want.items():
+            got = ret.get(key)
+            if got is None or (int(got) if isinstance(val, int) else str(got)) != val:
+                out.append(('params', key, '%s reports %s=%r, negotiated/announced value is %r' % (side, key, got, val)))
+    # segment sizes against the announced MRU come from the grammar automaton
+    for (clause, discr, detail) in check_grammar(obs):
+        if clause == 'mru':
+            out.append(('mru', discr, detail))
+    if not both_init or plan['net'].get('tcp_capacity', 0) < (1 << 29):
+        return out
+    keepalive = min(cfg['A']['keepalive_time'], cfg['P']['keepalive_time'])
+    end_time = har.end_time if har.end_time is not None else obs.wld.now
+    for side in ('A', 'P'):
+        peer = OTHER[side]
+        stt = state_times(obs, side)
+        if 'established' not in stt:
+            continue
+        t_est = stt['established'][1]
+        t_end = end_time
+        closing = None
+        if 'ending' in stt:
+            closing = stt['ending'][1]
+        if side in obs.tcp_close:
+            closing = min(closing, obs.tcp_close[side][1]) if closing is not None else obs.tcp_close[side][1]
+        if not har.node[side].alive:
+            kill = [flt[1] for flt in obs.faults if flt[4] == 'kill' and flt[5] == side]
+            if kill:
+                closing = min([closing] + kill) if closing is not None else min(kill)
+        if closing is not None:
+            t_end = closing
+        # keepalive spacing of own output while established
+        sends = [msg['stamp'][1] for msg in obs.wire[side] if t_est <= msg['stamp'][1] <= t_end]
+        if keepalive > 0:
+            marks = [t_est] + sends + [t_end]
+            for (prev, nxt) in zip(marks, marks[1:]):
+                if nxt - prev > keepalive * 10**6 + tol:
+                    out.append(('keepalive', 'gap', '%s wrote nothing for %.3f s although keepalive is %d s' % (
+                        side, (nxt - prev) / 1e6, keepalive)))
+                    break
+        # idle timeout
+        idle = cfg[side]['idle_time']
+        if idle > 0:
+            pipe_in = 'b2a' if side == 'A' else 'a2b'
+            pipe_out = 'a2b' if side == 'A' else 'b2a'
+            traffic = [t_est]
+            for evt in obs.wld.hist:
+                if evt[3] == 'tcp-recv' and evt[5] == pipe_in and t_est <= evt[1] <= t_end:
+                    traffic.append(evt[1])
+                elif evt[3] == 'tcp-send' and evt[5] == pipe_out and t_est <= evt[1] <= t_end:
+                    traffic.append(evt[1])
+            traffic.sort()
+            marks = traffic + [t_end]
+            for (prev, nxt) in zip(marks, marks[1:]):
+                if nxt - prev > idle * 10**6 + tol:
+                    out.append(('idle', 'timeout-missed', '%s saw no traffic for %.3f s with idle time %d s and did not start termination' % (
+                        side, (nxt - prev) / 1e6, idle)))
+                    break
+            # an idle-timeout SESS_TERM must really follow an idle period
+            for msg in obs.wire[side]:
+                if msg['kind'] == 'SESS_TERM' and msg['reason'] == 1 and not msg['flags'] & rfc9174.TERM_REPLY:
+                    before = [when for when in traffic if when < msg['stamp'][1] - 1000]
+                    last = max(before) if before else t_est
+                    if msg['stamp'][1] - last < idle * 10**6 - tol:
+                        out.append(('idle', 'timeout-early', '%s sent idle-timeout SESS_TERM only %.3f s after traffic, idle time is %d s' % (
+                            side, (msg['stamp'][1] - last) / 1e6, idle)))
+            # a terminating endpoint that hears nothing still closes
+            if 'ending' in stt and har.node[side].alive:
+                t_term = stt['ending'][1]
+                heard = [evt[1] for evt in obs.wld.hist if evt[3] == 'tcp-recv' and evt[5] == pipe_in and evt[1] > t_term]
+                eof = [evt[1] for evt in obs.wld.hist if evt[3] == 'tcp-recv-eof' and evt[5] == pipe_in]
+                sent_after = [msg['stamp'][1] for msg in obs.wire[side] if msg['stamp'][1] > t_term + 1000]
+                if not heard and not eof and not sent_after and side not in obs.tcp_close:
+                    if end_time - t_term > idle * 10**6 + tol:
+                        out.append(('idle', 'terminating-never-closes', '%s began terminating at %.3f s, heard nothing, and had not closed %.3f s later (idle time %d s)' % (
+                            side, t_term / 1e6, (end_time - t_term) / 1e6, idle)))
+    return out
+
+
+# ---------------------------------------------------------------------------
+def check_dbus_consistency(obs, final_idle_expected):
+    ''' C18 sequential model of the queue / idle view. '''
+    out = []
+    har = obs.har
+    for side in ('A', 'P'):
+        peer = OTHER[side]
+        path = har.contact[side]
+        if path is None:
+            continue
+        rx_fin = [(fin[0], fin[4][0]) for fin in obs.sig(side, 'recv_bundle_finished')]
+        rx_start = [(item[0], item[4][0]) for item in obs.sig(side, 'recv_bundle_started')]
+        tx_fin = [(fin[0], fin[4][0]) for fin in obs.sig(side, 'send_bundle_finished')]
+        tx_start = [(item[0], item[4][0]) for item in obs.sig(side, 'send_bundle_started')]
+        closed_seq = None
+        for item in obs.signals[side]:
+            if item[3] == 'connection_closed' and item[4][0] == path:
+                closed_seq = item[0]
+        # finished at most once per transfer
+        for (name, fins) in (('recv', rx_fin), ('send', tx_fin)):
+            seen = set()
+            for (_seq, bid) in fins:
+                if bid in seen:
+                    out.append(('finished-once', name + '-finished-twice', '%s emitted %s_bundle_finished twice for %s' % (side, name, bid)))
+                seen.add(bid)
+        progress = rx_progress(obs, side)
+        peer_msgs = obs.wire[peer]
+        popped_at = {}
+        queued_at = {}
+        for call in har.calls:
+            (seq, _when, cside, member, args, ret) = call
+            if cside != side:
+                continue
+            err = isinstance(ret, tuple) and len(ret) == 3 and ret[0] == 'error'
+            if closed_seq is not None and seq > closed_seq:
+                continue
+            if member == 'send_bundle_data' and not err:
+                queued_at[str(ret)] = seq
+            elif member == 'recv_bundle_pop_data':
+                bid = str(args[0])
+                announced = [fseq for (fseq, fbid) in rx_fin if fbid == bid and fseq < seq]
+                if err:
+                    if announced and bid not in popped_at:
+                        out.append(('pop', 'pop-failed', '%s could not pop announced transfer %s: %s' % (side, bid, ret[1])))
+                else:
+                    if bid in popped_at:
+                        out.append(('pop', 'popped-twice', '%s popped transfer %s twice' % (side, bid)))
+                    if not announced:
+                        out.append(('pop', 'popped-unannounced', '%s popped transfer %s before it was announced' % (side, bid)))
+                    popped_at[bid] = seq
+            elif member == 'recv_bundle_get_queue' and not err:
+                want = set(fbid for (fseq, fbid) in rx_fin if fseq < seq) - set(bid for (bid, pseq) in popped_at.items() if pseq < seq)
+                got = set(str(item) for item in ret)
+                if got != want:
+                    out.append(('rx-queue', 'mismatch', '%s receive queue lists %s, model says %s' % (side, sorted(got), sorted(want))))
+            elif member == 'send_bundle_get_queue' and not err:
+                want = set(tid for (tid, qseq) in queued_at.items() if qseq < seq) - set(fbid for (fseq, fbid) in tx_fin if fseq < seq)
+                got = set(str(item) for item in ret)
+                if got != want:
+                    out.append(('tx-queue', 'mismatch', '%s send queue lists %s, model says %s' % (side, sorted(got), sorted(want))))
+            elif member == 'is_sess_idle' and not err:
+                unfinished_tx = set(tid for (tid, qseq) in queued_at.items() if qseq < seq) - set(fbid for (fseq, fbid) in tx_fin if fseq < seq)
+                rx_inprog = set(bid for (sseq, bid) in rx_start if sseq < seq) - set(fbid for (fseq, fbid) in rx_fin if fseq < seq)
+                got_octets = 0
+                for (pseq, _pw, total) in progress:
+                    if pseq < seq:
+                        got_octets = total
+                partial = False
+                for msg in peer_msgs:
+                    if msg['offset'] < got_octets < msg['end']:
+                        partial = True
+                if got_octets > (peer_msgs[-1]['end'] if peer_msgs else 0):
+                    partial = True
+                busy = bool(unfinished_tx or rx_inprog or partial)
+                if bool(ret) and busy:
+                    why = 'tx-pending' if unfinished_tx else ('rx-in-progress' if rx_inprog else 'unprocessed-octets')
+                    out.append(('idle', 'true-while-' + why, '%s reports idle although %s' % (side, why)))
+                if final_idle_expected and call is har.final_idle.get(side) and not bool(ret):
+                    out.append(('idle', 'never-idle-after-drain-' + stall_cause(obs), '%s still reports not idle after everything drained' % side))
+    return out
